@@ -474,6 +474,19 @@ theorem platform_option_names_total :
   decide +kernel
 
 open Scrapli.Gen.PlatformOptions in
+/-- every documented platform option name builds the option function for the setting it names -/
+theorem platform_names_build_their_option :
+    [("port", Opt.WithPort), ("auth-bypass", .WithAuthBypass), ("auth-strict-key", .WithAuthNoStrictKey),
+     ("prompt-pattern", .WithPromptPattern), ("username-pattern", .WithUsernamePattern),
+     ("password-pattern", .WithPasswordPattern), ("passphrase-pattern", .WithPassphrasePattern),
+     ("return-char", .WithReturnChar), ("read-delay", .WithReadDelay), ("timeout-ops", .WithTimeoutOps),
+     ("transport-type", .WithTransportType), ("read-size", .WithTransportReadSize),
+     ("transport-pty-height", .WithTermHeight), ("transport-pty-width", .WithTermWidth),
+     ("transport-system-open-args", .WithSystemTransportOpenArgs)].all
+      (fun p => entries.any fun e => e.nameS == p.1 && e.opt == some p.2) = true := by
+  decide +kernel
+
+open Scrapli.Gen.PlatformOptions in
 /-- … consequently the model of the options block never panics on a value of the documented type. -/
 theorem platform_value_of_documented_type_accepted (name : Bytes) (v : YVal) (e : Entry)
     (he : findEntry name = some e) (hdoc : e.documented ≠ "")
